@@ -247,6 +247,53 @@ pub fn authenticated_content_tbm(
     out
 }
 
+/// FramedContentTBS (RFC 9420 §6.1): version, wire_format, FramedContent, and the GroupContext for
+/// member / new_member_commit senders.
+pub fn framed_content_tbs(
+    wire_format: u16,
+    group_id: &[u8],
+    epoch: u64,
+    s: SenderRef,
+    ad: &[u8],
+    app: Option<&[u8]>,
+    group_context: &[u8],
+) -> Vec<u8> {
+    let mut out = Vec::with_capacity(96);
+    u16be(&mut out, 1); // ProtocolVersion mls10
+    u16be(&mut out, wire_format);
+    framed_content(&mut out, group_id, epoch, s, ad, app);
+    match s {
+        SenderRef::Member(_) | SenderRef::NewMemberCommit => {
+            let mut i = 0;
+            while i < group_context.len() {
+                out.push(group_context[i]);
+                i += 1;
+            }
+        }
+        _ => {}
+    }
+    out
+}
+
+/// SignContent (RFC 9420 §5.1.2): opaque label<V> = "MLS 1.0 " + Label; opaque content<V>.
+pub fn sign_content(label: &[u8], content: &[u8]) -> Vec<u8> {
+    let mut out = Vec::with_capacity(128);
+    let prefix = b"MLS 1.0 ";
+    varint(&mut out, prefix.len() + label.len());
+    let mut i = 0;
+    while i < prefix.len() {
+        out.push(prefix[i]);
+        i += 1;
+    }
+    i = 0;
+    while i < label.len() {
+        out.push(label[i]);
+        i += 1;
+    }
+    opaque(&mut out, content);
+    out
+}
+
 pub fn concat(a: &[u8], b: &[u8]) -> Vec<u8> {
     let mut out = Vec::with_capacity(a.len() + b.len());
     let mut i = 0;
